@@ -359,6 +359,34 @@ def random_text(rng):
     return text
 
 
+def size_texts():
+    """(family, text): a line is a line however long it is (lengths around
+    the usual read-buffer sizes, and far beyond); sections nest to any
+    depth."""
+    for n in (4095, 4096, 4097, 8191, 8192, 8193, 16385, 70000):
+        for tmpl in ("k %s\n", "%s v\n", "#%s\nk v\n", "<a %s>\n</a>\n",
+                     "<%s>\nk v\n</%s>\n", "k v %s w\nk2 x\n",
+                     "<a>\n  k %s\n</a>\nk2 x\n",
+                     "%%define n %s\nk $n\n", "%%import %s\n",
+                     "k v%s\n", "<a/>%s\n"):
+            for fill in ("x", "k v ", "ab <c> "):
+                body = (fill * (n // len(fill) + 1))[:n].strip()
+                if tmpl.startswith(("%s", "<%s", "<a %s", "%%import")) \
+                        and fill != "x":
+                    continue
+                if tmpl in ("k v%s\n", "<a/>%s\n"):
+                    if fill != "x":
+                        continue
+                    body = " " * n         # trailing blanks only
+                yield "longline", tmpl.replace("%s", body).replace("%%", "%")
+    for depth in (63, 64, 65, 66, 129, 300):
+        yield "deep", "".join("<s%d>\n" % i for i in range(depth)) + \
+            "k v\n" + "".join("</s%d>\n" % i
+                              for i in reversed(range(depth)))
+        yield "deep", "<a>\n" * depth + "k v\n" + "</a>\n" * depth + \
+            "<b/>\n"
+
+
 def schema_based_load(ctx, when):
     """The schema-based loader reads a text with %define and %include in
     the same process (it supports both): whatever that leaves behind in
@@ -450,6 +478,10 @@ def _run_shard(ctx):
                 if ctx.mine(idx):
                     run = filler * n
                     check_text(ctx, tmpl.replace("%s", run), "longrun")
+    # (b3) long lines and deep nesting
+    for idx, (fam, text) in enumerate(size_texts()):
+        if ctx.mine(idx):
+            check_text(ctx, text, fam)
     # (c) random texts
     rng = ctx.rng("random")
     for i in range(RANDOM[ctx.tier] // ctx.nshards):
